@@ -1,4 +1,5 @@
 import J5V.Pipe.Proofs
+import J5V.Pipe.WalkProofs
 import J5V.Generated.PipeFacts
 /-!
 # C16 — everything the compiler emits is consumable by the rest of the toolchain
@@ -8,6 +9,221 @@ Only the property theorems (and their non-vacuity examples) live here; lemmas ar
 -/
 namespace J5V.Props.C16
 open J5V.Go J5V.Compile J5V.Pipe
+
+/-! ## the http path: `:name → {snake}` (compiler) and `{snake} → :jsonName` (structure) -/
+
+/-- **Path round trip.** For the request message the compiler emits (proto name `ToSnake n`,
+explicit JSON name `n` for each declared property `n`), the consumer's rewrite undoes the
+producer's: the client API shows exactly the declared (resolved) path. Side conditions, both
+decidable: distinct properties have distinct proto names (`SnakeInjective`; protobuf enforces it),
+and literal parts contain none of `{ } * :` (`LiteralsClean`; **not** enforced by the compiler —
+open finding, see `C16_path_inverse_counterexample`). -/
+theorem C16_path_inverse_partial (props : List Str) (path p' : Str)
+    (hlit : LiteralsClean path) (hinj : SnakeInjective props)
+    (h : rewrite props path = .ok p') : unrewrite (fieldsOf props) p' = .ok path :=
+  path_roundtrip props path p' hlit hinj h
+
+/-- the full-strength statement: whatever path the compiler accepts comes back unchanged -/
+def PathInverseFull : Prop :=
+  ∀ (props : List Str) (path p' : Str), SnakeInjective props →
+    rewrite props path = .ok p' → unrewrite (fieldsOf props) p' = .ok path
+
+/-- … is false of the code as it is: `httpPath = "/a:b"` is accepted by the compiler and rejected
+by `structure.buildMethod` ("invalid path part"); `"/{x}"` with a property `x` silently comes back
+as `"/:x"`. Replays: kernel ops `pp 2f613a62` and `pp 2f7b787d 78`. -/
+theorem C16_path_inverse_counterexample : ¬ PathInverseFull := by
+  intro h
+  have := h [] b!"/a:b" b!"/a:b" (by decide) (by decide)
+  revert this
+  decide
+
+theorem C16_path_reinterpreted_counterexample :
+    rewrite [b!"x"] b!"/{x}" = .ok b!"/{x}" ∧ unrewrite (fieldsOf [b!"x"]) b!"/{x}" = .ok b!"/:x" := by
+  decide
+
+/-- the compiler accepts a path only if every path parameter names a request property -/
+theorem C16_path_params_named (props : List Str) (path p' : Str) (h : rewrite props path = .ok p') :
+    ∀ n ∈ pathParamNames path, n ∈ props := by
+  intro n hn
+  obtain ⟨part, hp, hpn⟩ := (mem_pathParamNames path n).mp hn
+  exact (rewrite_ok props path p' h).1 part hp n hpn
+
+/-- `buildMethod`'s slice expression `part[1:len(part)-1]` is never out of range: the consumer
+never panics, on any pattern and any request message -/
+theorem C16_path_no_panic (fields : List PField) (pattern : Str) (w : String) :
+    unrewrite fields pattern ≠ .panic w := by
+  unfold unrewrite
+  cases h : unrewriteParts fields (splitOnByte 47 pattern) with
+  | ok qs => simp
+  | err e => simp
+  | panic w' => exact absurd h (unrewriteParts_no_panic fields _ w')
+
+/-! ## names -/
+
+/-- **Every name the producer can emit passes the consumer's test**: `<N>Service` is built as a
+service, `ToCamel(n)Topic` as a topic (never mistaken for a service or dropped as `…Events`),
+`<M>Request` / `<M>Response` / `google.api.HttpBody` pass `buildMethod`, `<M>Message` /
+`google.protobuf.Empty` pass `buildTopicMethod`, and a `<M>Response` is never taken for the raw
+`HttpBody` marker by `methodFromSource` while the real one always is. -/
+theorem C16_names_accepted (pkg n m : Str) (hasResp : Bool) :
+    classify (serviceName n) = .service
+    ∧ classify (topicName n) = .topic
+    ∧ acceptMethod pkg m { pkg := pkg, name := requestName m } (producedOutput pkg m hasResp) = true
+    ∧ acceptTopicMethod pkg m { pkg := pkg, name := messageName m }
+        { pkg := b!"google.protobuf", name := b!"Empty" } = true
+    ∧ isRawResponse (responseName m) = false
+    ∧ isRawResponse (producedOutput pkg m false).name = true :=
+  ⟨classify_service n, classify_topic n, acceptMethod_produced pkg m hasResp,
+    acceptTopicMethod_produced pkg m, responseName_not_raw m, httpBody_is_raw pkg m⟩
+
+/-! ## request split -/
+
+/-- **fillRequest is a partition.** Every request property lands in exactly one of path / query /
+body (the three parts together are a permutation of the properties, so nothing is lost or
+duplicated); the path part is exactly the properties named by a `:param` of the path; GET puts the
+rest into the query and has no body, every other verb puts the rest into the body and has no
+query; order is kept. -/
+theorem C16_split_partition (verb : Verb) (path : Str) (props : List Str) :
+    let r := fillRequest verb.hasBody path props
+    r.all.Perm props
+    ∧ (∀ x, x ∈ r.path ↔ x ∈ props ∧ x ∈ pathParamNames path)
+    ∧ (∀ x, x ∈ r.query ++ r.body.getD [] ↔ x ∈ props ∧ x ∉ pathParamNames path)
+    ∧ (verb = .get → r.body = none)
+    ∧ (verb ≠ .get → r.query = [] ∧ r.body.isSome = true)
+    ∧ r.path.Sublist props ∧ (r.query ++ r.body.getD []).Sublist props := by
+  intro r
+  refine ⟨fillRequest_all_perm _ _ _, ?_, ?_, ?_, ?_, ?_, ?_⟩
+  · intro x
+    show x ∈ (fillRequest verb.hasBody path props).path ↔ _
+    rw [fillRequest_path, List.mem_filter]
+    simp
+  · intro x
+    show x ∈ (fillRequest verb.hasBody path props).query ++ (fillRequest verb.hasBody path props).body.getD [] ↔ _
+    rw [fillRequest_rest, List.mem_filter]
+    simp
+  · intro hv; subst hv; rfl
+  · intro hv
+    cases verb <;> first | exact absurd rfl hv | exact ⟨rfl, rfl⟩
+  · show (fillRequest verb.hasBody path props).path.Sublist props
+    rw [fillRequest_path]; exact List.filter_sublist
+  · show ((fillRequest verb.hasBody path props).query ++ (fillRequest verb.hasBody path props).body.getD []).Sublist props
+    rw [fillRequest_rest]; exact List.filter_sublist
+
+/-- each path parameter of an accepted path names a request property, and that property is a path
+parameter of the client method -/
+theorem C16_split_path_params (verb : Verb) (props : List Str) (path p' : Str)
+    (h : rewrite props path = .ok p') :
+    ∀ n ∈ pathParamNames path, n ∈ (fillRequest verb.hasBody path props).path := by
+  intro n hn
+  rw [fillRequest_path, List.mem_filter]
+  exact ⟨C16_path_params_named props path p' h n hn, List.contains_iff_mem.mpr hn⟩
+
+/-! ## schema walks -/
+
+/-- **The defect that was there** (pinned commit, before `fix:` 93cab0c): `walkSchemaFields`
+without a memory of the schemas it is in never finishes on the one-schema cycle
+`object A { field a object:A }` — no amount of fuel gives an answer. On the real code this was a
+fatal stack overflow in `j5client.APIFromSource` (replay: kernel op `graph N0 1 N0 o 1 a d N0`). -/
+theorem C16_walk_old_diverges : ∀ fuel path, walkOld selfLoop fuel 0 path = none :=
+  walkOld_selfLoop_diverges
+
+/-- **Termination of the repaired walk, for every finite schema graph**: the recursion depth
+never exceeds the number of schemas + 1, so `walk` (fuel `|g| + 1`) always returns, and any larger
+fuel returns the same. No bound on the graph, cycles allowed. -/
+theorem C16_walk_terminates (g : Graph) (root : Nat) :
+    (∃ r, walk g root = some r)
+    ∧ ∀ fuel, g.length + 1 ≤ fuel → walkFuel g fuel root [] [] = walk g root := by
+  have h := walkFuel_isSome g (g.length + 1) root [] [] ⟨List.nodup_nil, by simp⟩ (by simp)
+  obtain ⟨r, hr⟩ := Option.isSome_iff_exists.mp h
+  refine ⟨⟨r, hr⟩, ?_⟩
+  intro fuel hf
+  unfold walk
+  rw [hr]
+  exact walkFuel_mono g _ fuel root [] [] r hf hr
+
+/-- `collectPackageRefs` terminates on every finite schema graph -/
+theorem C16_refs_terminates (g : Graph) (roots : List Field) : ∃ s, collect g roots = some s :=
+  collect_isSome g roots
+
+/-- **Every schema reachable from a method or entity is present**: whatever can be reached from
+the root fields (request / response / path / query properties, entity keys / state / event
+properties) through object, oneof and enum references, directly or inside arrays and maps, is in
+the collected set. -/
+theorem C16_refs_complete (g : Graph) (roots : List Field) (s : List Nat)
+    (h : collect g roots = some s) : ∀ n, Reach g roots n → n ∈ s :=
+  collect_complete g roots s h
+
+/-! ## the chain, composed, for declared services -/
+
+/-- full strength: for every service the compiler accepts, the client API lists exactly the
+declared service and methods with the declared verb, path, request split and response -/
+def CompilerAccepts (s : ServiceDecl) : Prop :=
+  ∀ m ∈ s.methods, SnakeInjective m.req ∧ ∀ n ∈ pathParamNames (resolvedPath s.base m.path), n ∈ m.req
+
+instance (s : ServiceDecl) : Decidable (CompilerAccepts s) := by
+  unfold CompilerAccepts; infer_instance
+
+def ClientExactFull : Prop :=
+  ∀ (pkg : Str) (s : ServiceDecl), CompilerAccepts s → chainService pkg s = .ok (declaredService s)
+
+/-- false as long as the compiler lets literal path parts with `{ } * :` through (open finding) -/
+theorem C16_client_exact_counterexample : ¬ ClientExactFull := by
+  intro h
+  have := h b!"foo.v1.service"
+    { name := b!"Foo", base := none,
+      methods := [{ name := b!"Get", verb := .get, path := b!"/a:b", req := [], hasResp := true }] }
+    (by decide)
+  revert this
+  decide
+
+/-- **Client API exactness** on the composed models compile → structure → client: for a declared
+service whose methods satisfy `ValidMethod` (what the compiler checks, plus `LiteralsClean`), the
+chain succeeds and yields exactly `<Name>Service` with the declared methods in order, each with
+the declared verb, the declared (base-path-resolved) path, the request properties split by that
+path and verb, and the declared response (none for a raw `HttpBody` method). Partial: the extra
+hypothesis `LiteralsClean` (open finding), and services generated from entities are not in this
+model (C17). -/
+theorem C16_client_exact_partial (pkg : Str) (s : ServiceDecl) (h : ValidService s) :
+    chainService pkg s = .ok (declaredService s) :=
+  chainService_valid pkg s h
+
+/-! ## Non-vacuity -/
+
+/-- a service with a base path, a parameter whose JSON name is not the protoc default
+(`barID` ↔ `bar_id`), a snake-case name, a trailing slash and a method without response -/
+def exampleService : ServiceDecl :=
+  { name := b!"Foo", base := some b!"/foo/v1/",
+    methods := [
+      { name := b!"GetFoo", verb := .get, path := b!"/bars/:barID/x/:foo_bar", req := [b!"q", b!"barID", b!"foo_bar"], hasResp := true },
+      { name := b!"Download", verb := .post, path := b!"dl/:id", req := [b!"id", b!"body"], hasResp := false }] }
+
+example : ValidService exampleService := by decide
+example : chainService b!"foo.v1.service" exampleService = .ok (declaredService exampleService) :=
+  C16_client_exact_partial _ _ (by decide)
+/-- … and the declared client really has the resolved path and the split one expects -/
+example : (declaredService exampleService).methods.map (fun m => (m.path, m.request)) =
+    [(b!"/foo/v1/bars/:barID/x/:foo_bar", { path := [b!"barID", b!"foo_bar"], query := [b!"q"], body := none }),
+     (b!"/foo/v1/dl/:id", { path := [b!"id"], query := [], body := some [b!"body"] })] := by decide
+example : rewrite [b!"q", b!"barID"] b!"/bars/:barID" = .ok b!"/bars/{bar_id}" := by decide
+example : LiteralsClean b!"/bars/:barID/x" ∧ SnakeInjective [b!"q", b!"barID"] := by decide
+example : ¬ SnakeInjective [b!"fooId", b!"foo_id"] := by decide
+
+/-- a graph with a self loop, a two-cycle through a oneof, an enum leaf and an array edge -/
+def exampleGraph : Graph :=
+  [ { kind := .object, props := [{ name := b!"name", field := .scalar }, { name := b!"self", field := .object 0 },
+                                 { name := b!"alt", field := .oneof 1 }] },
+    { kind := .oneof, props := [{ name := b!"back", field := .object 0 }, { name := b!"kind", field := .enum 2 },
+                                { name := b!"many", field := .array (.object 3) }] },
+    { kind := .enum, props := [] },
+    { kind := .object, props := [{ name := b!"x", field := .scalar }] } ]
+
+example : (walk exampleGraph 0).map (fun o => o.map (fun vs => vs.map (·.path))) =
+    some (.ok [[b!"name"], [b!"self"], [b!"alt"], [b!"alt", b!"back"], [b!"alt", b!"kind"], [b!"alt", b!"many"]]) := by
+  decide
+example : collect exampleGraph [.object 0] = some [3, 2, 1, 0] := by decide
+example : Reach exampleGraph [.object 0] 3 :=
+  .step (.step (.root (f := .object 0) (by simp) rfl (by decide)) ⟨_, rfl, _, by simp [Node.walkProps]; exact Or.inr (Or.inr rfl), rfl, by decide⟩)
+    ⟨_, rfl, { name := b!"many", field := .array (.object 3) }, by simp [Node.walkProps], rfl, by decide⟩
 
 end J5V.Props.C16
 
